@@ -126,7 +126,9 @@ func (k *Keeper) AddRateLimit(ctx sdk.Context, msg *types.MsgAddRateLimit) error
 		Flow:  &flow,
 	})
 
-	return nil
+	// The flow starts at 0, so packets counted against a previous rate limit on this path
+	// must not be undone against the new one
+	return k.removeAllChannelPendingPackets(ctx, msg.ChannelOrClientId, msg.Denom)
 }
 
 // Updates an existing rate limit. Fails if the rate limit doesn't exist
@@ -159,7 +161,17 @@ func (k *Keeper) UpdateRateLimit(ctx sdk.Context, msg *types.MsgUpdateRateLimit)
 		Flow:  &flow,
 	})
 
-	return nil
+	// The flow was reset to 0, so the packets counted in it are no longer pending
+	return k.removeAllChannelPendingPackets(ctx, msg.ChannelOrClientId, msg.Denom)
+}
+
+// removeAllChannelPendingPackets removes all pending send and receive markers of a rate limit path
+func (k *Keeper) removeAllChannelPendingPackets(ctx sdk.Context, channelID string, denom string) error {
+	if err := k.RemoveAllChannelPendingSendPackets(ctx, channelID, denom); err != nil {
+		return err
+	}
+
+	return k.RemoveAllChannelPendingReceivePackets(ctx, channelID, denom)
 }
 
 // Reset the rate limit after expiration
